@@ -43,6 +43,11 @@ def row_source(row):
         msg_ty = "M<u8>"
         mk = lambda x, f: "M::<u8> { x: %d, fail: %s, tag: 1 }" % (x, "true" if f else "false")
     extra = "    pub fn helper(&self) -> u32 { 99 }\n" if row["extra"] else ""
+    prev = row.get("prev", "none")
+    prev_decl = "pub struct P0 { pub x: u32 }" if prev != "none" else ""
+    if prev != "none":
+        extra += ("    %s\n    async fn hp(&mut self, msg: P0, _r: &ActorRef<Self>) -> Result<u32, CorpErr> {\n"
+                  "        if msg.x == 0 { Err(CorpErr(0)) } else { Ok(msg.x) }\n    }\n" % ATTRS[prev])
     extra_check = "(%s).helper() == 99" % sh["init"] if row["extra"] else "true"
     ok = lambda x: rt["ok"].replace("V", str(40 + x))
     err = lambda x: rt["err"].replace("V", str(40 + x)) if rt["err"] else None
@@ -65,6 +70,7 @@ pub static LAST: AtomicU32 = AtomicU32::new(0);
 
 {sh["decl"]}
 {msg_decl}
+{prev_decl}
 
 #[message_handlers]
 impl{sh["impl_g"]} {sh["ty"]} {{
